@@ -328,6 +328,22 @@ async fn read_half_inner(r: &mut ReadStream, uid: u64, mode: u32, rchunk: usize,
         got += n as u64;
         if n < rchunk {
             hist.rec(Ev::ReadEos { uid, bytes: got });
+            // End-of-stream is sticky: reading on (while the stream id may already be reused by
+            // the next transient stream) yields nothing.
+            if mode == 1 || got % 3 == 0 {
+                for _ in 0..1 + got % 3 {
+                    sched_point().await;
+                    sched_point().await;
+                    let mut extra = vec![0u8; rchunk.max(4)];
+                    match r.read_exact(ctx, &mut extra).await {
+                        Ok(0) | Err(_) => {}
+                        Ok(k) => {
+                            hist.rec(Ev::Corrupt { uid, detail: format!("{k} more bytes were returned after end-of-stream had been reported") });
+                            return;
+                        }
+                    }
+                }
+            }
             return;
         }
     }
